@@ -281,11 +281,27 @@ public:
   }
 
   virtual bool operator<=(const powerset_domain_t &other) const override {
-    powerset_domain_t pow_left(*this);
-    powerset_domain_t pow_right(other);
-    Domain left = smash_disjuncts(pow_left);
-    Domain right = smash_disjuncts(pow_right);
-    return left <= right;
+    // Comparing the smashed operands is not sound: the join of the
+    // disjuncts of other can contain states that no disjunct of other
+    // contains ({x=1} <= {x=0} or {x=2} would hold). We return true
+    // only if each disjunct on the left is included in some disjunct
+    // on the right. This is sound but incomplete.
+    if (is_bottom() || other.is_top()) {
+      return true;
+    } else if (other.is_bottom() || is_top()) {
+      return false;
+    }
+    for (unsigned i = 0, sz_i = m_disjuncts.size(); i < sz_i; ++i) {
+      bool included = false;
+      for (unsigned j = 0, sz_j = other.m_disjuncts.size();
+           j < sz_j && !included; ++j) {
+        included = (m_disjuncts[i] <= other.m_disjuncts[j]);
+      }
+      if (!included) {
+        return false;
+      }
+    }
+    return true;
   }
 
   virtual void operator|=(const powerset_domain_t &other) override {
